@@ -25,7 +25,7 @@ META = {
                     "time accepted iff decoded == instant at ms resolution (csep-csv, jma) or floor(instant to s) <= decoded <= instant (zmap, ndk, horus)"],
     "deciding": ["decode:csep-csv", "decode:zmap", "decode:jma-csv", "decode:ingv_horus", "decode:ndk"],
 }
-META["added"] = 'Added: 1-6 fraction digits, files without final newline, decimal-year ZMAP in the second half of the year, pre-1970 fractional CSEP times, the epoch instant and zero-valued coordinates / depths.'
+META["added"] = 'Added: 1-6 fraction digits, files without final newline, decimal-year ZMAP in the second half of the year, pre-1970 fractional CSEP times, the epoch instant and zero-valued coordinates / depths. shards under different process time zones.'
 MANIFEST = {
     "technique": "boundary recorder on csep.load_catalog per format against per-format writer models; sys.monitoring witness on the readers' roll-over branches (a branch never reached makes the run inconclusive)",
     "level_text": "For each of the five text formats, generated files of well-formed records are decoded by the real readers; event count, order, coordinates, depth, magnitude and origin time (UTC, at the format's resolution) are compared with the writer model; roll-over spellings (seconds 60, minute 60, hour 24) and non-UTC offsets are generated on purpose and the witness confirms the roll-over branches executed.",
@@ -271,10 +271,12 @@ EXECUTORS = {"file": ex_file}
 
 
 def install(ctx):
-    pass
+    from ..core import set_process_time_zone
+    set_process_time_zone(ctx)
 
 
 def run(ctx):
+    install(ctx)
     import csep.utils.readers as readers
     thorough = ctx.tier == "thorough"
     w1 = witness.LineWitness(readers._parse_datetime_to_zmap, {"add_minute = True": "ndk-seconds-60"}, "_parse_datetime_to_zmap", tool=4)
